@@ -630,7 +630,7 @@ def site_templates(lang, site, name, text, pfx):
             return ["    %s: %s" % (name, text), "    %s: %s = Field(default=None)" % (name, text),
                     "    %s: Annotated[%s, BeforeValidator(…" % (name, text)]
         if site in ("alias", "newtype"):
-            return ["%s = %s" % (name, text)]           # a generic alias is `Name = <type>` (fix: commit 614135b)
+            return ["%s = %s" % (name, text)]           # a generic alias is `Name = <type>` (fix: commit f8d1040)
         return ["%s: %s = 1" % (name, text)]
     raise ValueError(lang)
 
